@@ -253,12 +253,24 @@ func ruleC10Lookup(p *Prog, r *Result) {
 		}
 	}
 	objP, partsP := cur("obj"), cur("parts")
-	pp.all("an empty path is the value itself", selectPaths(pp.paths, func(pa *Path) bool { return guardPol(pa, "len", partsP, "==0") == 1 }), "returns obj", returnsExactly(objP, "obj"))
-	rest := selectPaths(pp.paths, func(pa *Path) bool { return guardPol(pa, "len", partsP, "==0") == -1 })
+	// the path is walked by recursion or a shrinking slice (tested with len(parts) == 0) or by a range over it
+	ranged := func(pa *Path) int { return guardPol(pa, "itermore", mOp("range", partsP), nil) }
+	pp.all("an empty path is the value itself", selectPaths(pp.paths, func(pa *Path) bool {
+		return guardPol(pa, "len", partsP, "==0") == 1 || (ranged(pa) == -1 && pa.End == "return")
+	}), "returns obj", returnsExactly(objP, "obj"))
+	rest := selectPaths(pp.paths, func(pa *Path) bool { return guardPol(pa, "len", partsP, "==0") == -1 || ranged(pa) == 1 })
 	pp.all("a path through something that is not a map does not resolve", selectPaths(rest, func(pa *Path) bool { return guardPol(pa, "kind", objP, "map") == -1 }), "ErrRefNotFound", func(pa *Path) (bool, string) {
 		return isFailure(pa) && wraps(lastResult(pa), "ErrRefNotFound"), "a path into a scalar or list resolves to something instead of failing"
 	})
-	first := func(t *T) bool { return t.Op == "index" && partsP(t.Args[0]) && t.Args[1].IsConst("0") }
+	first := func(t *T) bool {
+		if t == nil {
+			return false
+		}
+		if t.Op == "index" && partsP(t.Args[0]) && t.Args[1].IsConst("0") {
+			return true
+		}
+		return t.Op == "elem" && len(t.Args) == 1 && partsP(t.Args[0]) // the component the range is at
+	}
 	pp.all("a missing key does not resolve", selectPaths(rest, func(pa *Path) bool {
 		return guardPol(pa, "kind", objP, "map") == 1 && guardPol(pa, "has", objP, TM(first)) == -1
 	}), "ErrRefNotFound", func(pa *Path) (bool, string) {
@@ -282,6 +294,9 @@ func ruleC10Lookup(p *Prog, r *Result) {
 				if tail(v) {
 					okParts = true
 				}
+			}
+			if ranged(pa) == 1 {
+				okParts = true // the range itself moves on to the next component
 			}
 			if okObj && okParts {
 				return true, ""
